@@ -174,7 +174,10 @@ type c02Case struct {
 // c02SeqRoutes / c02SeqPaths: the request sequences on trees with one or two routes.
 var c02SeqRoutes = []string{"/n/{x}/e", "/a/?{x}", "/{x}/{y}/{z}", "/n/?{m: **}", "/{m: **}/{x}", "/n/{x}/?{y}", "/{r: /[an]+/}/e", "/{m: **, capture: 2}/e", "/a/{x}-{y}/n", "/e", "/{v}/e", "/{u}/n/{w}", "/{t: /[an]+/}/n",
 	// the same regex segment (a grouped bind followed by another bind) as the end of one route and in the middle of another
-	"/n/{g: /(a|n)e/}-{x}", "/n/{g: /(a|n)e/}-{x}/e"}
+	"/n/{g: /(a|n)e/}-{x}", "/n/{g: /(a|n)e/}-{x}/e",
+	// a bind whose expression is a complete group of its own, a route whose whole regex segment reads the same
+	// once assembled, and both in one route
+	"/e/{q: /([an]+)/}", "/a/{s: /[an]+/}", "/{q: /([an]+)/}/{s: /[an]+/}/n"}
 
 type c02Ans struct {
 	found  bool
@@ -243,7 +246,7 @@ func c02SeqReplay(p *route.Parser, c c02Case) (bool, string) {
 // every ordered pair of paths on every tree of one or two routes, compared with a fresh tree.
 func c02Sequences(r *core.Run, p *route.Parser) {
 	// (%2561 decodes once to %61: a value that a second decoding would change)
-	paths := pathsOver([]string{"a", "n", "e", "%2561"}, 3, []string{"/a/a-a/n", "/a/a-/n", "/n/a/e/e", "/a/%2561-%2561/n", "/n/ae-a", "/n/ae-n/e", "/n/ne-a/e", "/n/ne-%2561", "/n/ae-n"})
+	paths := pathsOver([]string{"a", "n", "e", "%2561"}, 3, []string{"/a/a-a/n", "/a/a-/n", "/n/a/e/e", "/a/%2561-%2561/n", "/n/ae-a", "/n/ae-n/e", "/n/ne-a/e", "/n/ne-%2561", "/n/ae-n", "/a/ea", "/a/ean", "/e/ea", "/e/na", "/a/an", "/a/ea/n", "/ea/a/n", "/an/na/n"})
 	r.Bounds["sequence_routes"] = c02SeqRoutes
 	r.Bounds["sequence_paths"] = len(paths)
 	n := len(c02SeqRoutes)
